@@ -48,6 +48,10 @@ pub struct Case {
     pub faults: Vec<Fault>,
     /// the callback panics at this (0-based) evaluation
     pub panic_at: Option<usize>,
+    /// with `panic_at`: the panicking call is caught and the same call is made again at the same point with
+    /// a callback that no longer panics — the outcome judged is that of the retry (a failed call must not
+    /// leave anything behind)
+    pub retry_after_panic: bool,
     /// history before the call under test (the routine must not remember anything):
     /// 0 none; 1 the same routine at the same point with a different map;
     /// 2 a Newton solve (finite-difference Jacobian) that converges onto the point;
@@ -251,6 +255,8 @@ fn run_real(case: &Case) -> Outcome {
     run_prelude(case);
     let hist = RefCell::new(History::default());
     let decoy = std::cell::Cell::new(false);
+    let armed = std::cell::Cell::new(true);
+    let retry = case.retry_after_panic && case.panic_at.is_some();
     let res = if !case.cmplx {
         let f = |x: Vec64| -> Vec64 {
             if decoy.get() {
@@ -267,7 +273,7 @@ fn run_real(case: &Case) -> Outcome {
                 }
                 idx
             };
-            if case.panic_at == Some(idx) {
+            if armed.get() && case.panic_at == Some(idx) {
                 panic!("{}", PANIC_MARK);
             }
             if case.reentrant {
@@ -282,6 +288,11 @@ fn run_real(case: &Case) -> Outcome {
             decoy.set(true);
             let _ = catch(|| Mat64::jacobian(point.clone(), &f, case.delta));
             decoy.set(false);
+        }
+        if retry {
+            let _ = catch(|| Mat64::jacobian(point.clone(), &f, case.delta));
+            armed.set(false);
+            *hist.borrow_mut() = History::default();
         }
         catch(|| {
             let j: Mat64 = Mat64::jacobian(point, &f, case.delta);
@@ -313,7 +324,7 @@ fn run_real(case: &Case) -> Outcome {
                 }
                 idx
             };
-            if case.panic_at == Some(idx) {
+            if armed.get() && case.panic_at == Some(idx) {
                 panic!("{}", PANIC_MARK);
             }
             if case.reentrant {
@@ -329,6 +340,11 @@ fn run_real(case: &Case) -> Outcome {
             decoy.set(true);
             let _ = catch(|| Matrix::<Cmplx>::jacobian_cmplx(point.clone(), &f, case.delta));
             decoy.set(false);
+        }
+        if retry {
+            let _ = catch(|| Matrix::<Cmplx>::jacobian_cmplx(point.clone(), &f, case.delta));
+            armed.set(false);
+            *hist.borrow_mut() = History::default();
         }
         catch(|| {
             let j: Matrix<Cmplx> = Matrix::<Cmplx>::jacobian_cmplx(point, &f, case.delta);
@@ -494,9 +510,9 @@ impl Prop for C18 {
             ((s / 6) as usize + 1, (s % 6) as usize + 1, pass % 2 == 1, if pass < 4 { 0 } else { 1 }, true)
         } else if rng.chance(0.0005) {
             // far beyond the 6 x 6 the property lists by name (it says "for every m and n"): shapes up to
-            // 200 x 200, where a rewrite may switch to tiles, blocks or another layout. Exact kinds only
+            // 320 x 320, where a rewrite may switch to tiles, blocks or another layout. Exact kinds only
             // (affine-dyadic stays exact: 41 significant bits at n = 200; table).
-            let big = |rng: &mut Rng| if rng.chance(0.3) { rng.urange(1, 8) } else { rng.urange(20, 200) };
+            let big = |rng: &mut Rng| match rng.below(10) { 0..=2 => rng.urange(1, 8), 3..=7 => rng.urange(20, 200), _ => rng.urange(201, 320) };
             let (m, n) = (big(rng), big(rng));
             (m, n, rng.chance(0.4), rng.below(2), false)
         } else {
@@ -527,7 +543,8 @@ impl Prop for C18 {
         let prelude = if dyadic_forced { 0 } else { match frng.below(20) { 0 | 1 => 1, 2..=4 => 2, 5..=7 => 3, _ => 0 } };
         let reentrant = !dyadic_forced && frng.chance(0.1);
         let short_return = if !dyadic_forced && m >= 2 && faults.is_empty() && panic_at.is_none() && frng.chance(0.04) { Some(frng.usize_below(n)) } else { None };
-        Case { cmplx, m, n, point, delta, dyadic, kind, faults, panic_at, prelude, reentrant, short_return }
+        let retry_after_panic = panic_at.is_some() && frng.chance(0.5);
+        Case { cmplx, m, n, point, delta, dyadic, kind, faults, panic_at, retry_after_panic, prelude, reentrant, short_return }
     }
 
     fn execute(&self, case: &Case, stats: &mut Stats) -> Verdict {
@@ -591,7 +608,10 @@ impl Prop for C18 {
         }
 
         // ---- scripted callback panic must propagate
-        if let Some(at) = case.panic_at {
+        if case.retry_after_panic && case.panic_at.is_some() {
+            stats.count("probe.retry_after_callback_panic");
+        }
+        if let Some(at) = case.panic_at.filter(|_| !case.retry_after_panic) {
             if at < out.hist.calls || out.result.is_err() {
                 stats.count("fault.callback_panic");
             }
@@ -790,6 +810,7 @@ impl Prop for C18 {
                 "value": match f.value { 0 => "NaN", 1 => "+Inf", _ => "-Inf" },
             })).collect::<Vec<_>>(),
             "callback_panics_at_evaluation": case.panic_at,
+            "then_same_call_retried_without_panic": case.retry_after_panic,
             "history_before_call": match case.prelude { 3 => "same routine, same point, same closure object acting as a different map", 1 => "same routine, same point, different map", 2 => "Newton solve (finite-difference Jacobian) of x - point = 0 converging onto the point", _ => "none" },
             "prelude": case.prelude,
             "callback_calls_the_jacobian_routine_itself": case.reentrant,
@@ -818,6 +839,7 @@ impl Prop for C18 {
                 value: match f["value"].as_str().unwrap_or("NaN") { "NaN" => 0, "+Inf" => 1, _ => 2 },
             }).collect()).unwrap_or_default(),
             panic_at: v["callback_panics_at_evaluation"].as_u64().map(|x| x as usize),
+            retry_after_panic: v["then_same_call_retried_without_panic"].as_bool().unwrap_or(false),
             prelude: v["prelude"].as_u64().unwrap_or(0) as u8,
             reentrant: v["callback_calls_the_jacobian_routine_itself"].as_bool().unwrap_or(false),
             short_return: v["fault_one_component_missing_at_column"].as_u64().map(|x| x as usize),
@@ -826,7 +848,7 @@ impl Prop for C18 {
 
     fn describe(&self) -> Describe {
         Describe {
-            rule: "one case = (real|complex, m, n, evaluation point, delta, scripted environment, fault list, optional callback panic). The simulator is the user function: it classifies every evaluation point against the forward stencil {x, x+delta e_j}, answers from an affine-dyadic map (J must equal M bit for bit), a smooth map with known derivative (O(delta) bound), or an arbitrary table on the stencil (undefined = NaN off the stencil), and injects NaN/Inf at chosen stencil points or a panic at a chosen evaluation. The first 288 runs enumerate all 36 shapes 1..6 x 1..6, real and complex, affine and table; the rest are drawn. Distinct = hash of (shape, field, delta, point, environment); every case is non-trivial (m, n >= 1).".into(),
+            rule: "one case = (real|complex, m, n, evaluation point, delta, scripted environment, fault list, optional callback panic). The simulator is the user function: it classifies every evaluation point against the forward stencil {x, x+delta e_j}, answers from an affine-dyadic map (J must equal M bit for bit), a smooth map with known derivative (O(delta) bound), or an arbitrary table on the stencil (undefined = NaN off the stencil), and injects NaN/Inf at chosen stencil points or a panic at a chosen evaluation. The first 288 runs enumerate all 36 shapes 1..6 x 1..6, real and complex, affine and table; the rest are drawn (dimensions to 6, to 12 in 3-10% of the runs, and one run in 2000 a shape up to 320 x 320 with exact kinds only; half of the scripted callback panics are followed by a retry of the same call, which is then judged). Distinct = hash of (shape, field, delta, point, environment); every case is non-trivial (m, n >= 1).".into(),
             assumptions: vec![
                 "the forward stencil is x and x + delta*e_j (real part for complex variables); restored coordinates may differ from x_k by <= 2 ulp(max(|x_k|, delta)) on non-dyadic data, bitwise equal on dyadic data".into(),
                 "on non-dyadic data entries are compared within a few ulp of the quotient plus 4u(|f_new|+|f|)/delta; on dyadic data with delta = 2^-k bit for bit".into(),
